@@ -114,6 +114,18 @@ def dump_once(case, root, tag):
         links = [src, tap, dumper]
     elif case['incoming'] == 'second_dumper':
         links = [src, DF.dump_to_path(pre, counters=copy.deepcopy(COUNTERS[case['counters']])), tap, dumper]
+    elif case['incoming'] == 'package_totals':
+        # the package descriptor arrives with totals of its own under the very names this dumper uses (update_package / a stale dump)
+        nm = names(case['counters'])
+        stale = {}
+        for key, val in (('datapackage-bytes', 1000), ('datapackage-rowcount', 100)):
+            if nm[key] is not None:
+                parts = nm[key].split('.')
+                d = stale
+                for p_ in parts[:-1]:
+                    d = d.setdefault(p_, {})
+                d[parts[-1]] = val
+        links = [src, DF.update_package(**stale), tap, dumper]
     else:
         DF.Flow(src, DF.dump_to_path(pre, counters=copy.deepcopy(COUNTERS[case['counters']]))).process()
         links = [DF.load(os.path.join(pre, 'datapackage.json')), tap, dumper]
@@ -140,9 +152,17 @@ def run_case(case):
     root = tempfile.mkdtemp(prefix='c09-', dir=tlc.WORK_ROOT)
     try:
         import contextlib
-        with contextlib.redirect_stdout(io.StringIO()):
-            written, stats, returned, incoming, read, dsize = dump_once(case, root, 'a')
-            written2, _, _, _, read2, _ = dump_once(case, root, 'b')
+        try:
+            with contextlib.redirect_stdout(io.StringIO()), contextlib.redirect_stderr(io.StringIO()):
+                written, stats, returned, incoming, read, dsize = dump_once(case, root, 'a')
+                written2, _, _, _, read2, _ = dump_once(case, root, 'b')
+        except Exception as e:
+            import traceback
+            tb = traceback.extract_tb(e.__traceback__)
+            # a failure inside the harness's own code is a machinery failure; one raised from the library on a valid configuration is a verdict
+            if tb and '/harness/' in tb[-1].filename:
+                raise
+            return dict(raised='%s: %s' % (type(e).__name__, str(e)[:200]), where='%s:%d' % (os.path.basename(tb[-1].filename), tb[-1].lineno) if tb else '')
         nm = names(case['counters'])
         res = []
         inres = {r['name']: r for r in incoming.get('resources', [])}
@@ -175,7 +195,7 @@ def run_case(case):
                             hash_enabled=nm['datapackage-hash'] is not None),
                    stats=dict(bytes=stats.get('bytes') if isinstance(stats.get('bytes'), int) else -1,
                               rows=stats.get('count_of_rows') if isinstance(stats.get('count_of_rows'), int) else -1,
-                              hash=stats.get('hash') or ''),
+                              hash=stats.get('hash') if isinstance(stats.get('hash'), str) else ''),       # total projection: anything else is 'no hash'
                    whash=wh if isinstance(wh, str) else '', desc_size=dsize, twice_same=(h1 == h2))
         return rec
     except Exception as e:
@@ -222,6 +242,13 @@ def run():
     errs = harness_errors(recs)
     if errs:
         raise tlc.MachineryError('harness error in dump replay: ' + errs[0])
+    raised = [(c, x) for c, x in zip(cases, recs) if 'raised' in x]
+    for c, x in raised:
+        rep.count(1, traces=1)
+        rep.violation(c, dict(case=c, why='the dump raised on a valid configuration', raised=x['raised'], where=x['where']),
+                      category='raised/%s/%s' % (c['counters'], x['raised'][:40]))
+    cases = [c for c, x in zip(cases, recs) if 'raised' not in x]
+    recs = [x for x in recs if 'raised' not in x]
     verd = validate(rep, recs)
     # the binding binds: a record whose measured file is one byte longer than what the descriptor says must be rejected
     import copy
@@ -247,7 +274,7 @@ def run():
         elif not v['ModelEq']:
             rep.model_drift('recorded counters differ from DumpStats.tla although every C09 clause holds', c)
     rep.sample(dict(case=cases[0], recorded=recs[0]))
-    rep.notes['cases_total_enumerated_by_tlc'] = 6144
+    rep.notes['cases_total_enumerated_by_tlc'] = 8192
     rep.assumptions += ['the harness measures size, md5 and data-row count of every written file itself (csv.reader / json.loads)',
                         'a counter that is enabled but absent from the written descriptor counts as not describing the bytes']
     return rep.finish(exhaustive=(t == 'thorough'))
